@@ -20,6 +20,10 @@ var vhClock int64
 
 func vhNow() time.Time { return time.Unix(vhClock, 0) }
 
+// vhLogTime replaces time.Time.Format under the engine in these harnesses: the probe code
+// formats (symbolic) times only for log messages.
+func vhLogTime(t time.Time, layout string) string { return "<time>" }
+
 type vhProbe struct {
 	slice     *Slice
 	node      *NodeInfo
@@ -132,6 +136,7 @@ func (p *vhProbe) wantUp(allowed bool) bool {
 
 //verif:harness prop=C28 bounds="one probe round of a replica without fuse strategy: clock, time since last successful probe, down-after period, lag and lag limit symbolic; probe outcome (ok / no connection / ping fails / select 1 fails), master up/down, replica up/down, IO/SQL thread states, row present/empty/no privilege enumerated"
 //verif:mock time.Now vhNow
+//verif:stub (time.Time).Format vhLogTime
 func Harness_C28_ReplicaNoStrategy() {
 	p := vhProbeSetup()
 	vs.TagB("masterUp", p.masterUp)
@@ -145,6 +150,7 @@ func Harness_C28_ReplicaNoStrategy() {
 
 //verif:harness prop=C28 bounds="one probe round of the master (body of checkBackendMasterStatus's tick, transcribed call by call is not possible: the loop owns a ticker) -- covered through the replica rounds' shared steps 1-2; see DESIGN"
 //verif:mock time.Now vhNow
+//verif:stub (time.Time).Format vhLogTime
 func Harness_C28_DownAfterNoAlive() {
 	// step 1+2 shared by master and replica rounds: the health probe and ShouldDownAfterNoAlive
 	p := vhProbeSetup()
@@ -157,6 +163,7 @@ func Harness_C28_DownAfterNoAlive() {
 
 //verif:harness prop=C27 bounds="one probe round of a fused replica under the hard policy: cool-down 1..2^20 s and time since the latest fuse 0..2^20 s symbolic, plus everything of the C28 round"
 //verif:mock time.Now vhNow
+//verif:stub (time.Time).Format vhLogTime
 func Harness_C27_HardProbeRound() {
 	p := vhProbeSetup()
 	cool := int64(vs.SymRange("coolDown", 1, 1<<20))
@@ -181,6 +188,7 @@ func Harness_C27_HardProbeRound() {
 
 //verif:harness prop=C27 bounds="one probe round of a fused replica under the gradual policy: remaining consecutive-success penalty 0..120 and failed-recovery count 3..16 enumerated, plus everything of the C28 round"
 //verif:mock time.Now vhNow
+//verif:stub (time.Time).Format vhLogTime
 func Harness_C27_GradualProbeRound() {
 	p := vhProbeSetup()
 	g := NewGradualRecovery()
@@ -230,6 +238,7 @@ func Harness_C27_GradualProbeRound() {
 
 //verif:harness prop=C27 bounds="one TryFuse on a replica in any state (up/down) under the hard or gradual policy with window 1 / threshold 1: error kind (connection error, other error, nil), clock, previous fuse/recovery times symbolic, failed-recovery count 3..16 enumerated"
 //verif:mock time.Now vhNow
+//verif:stub (time.Time).Format vhLogTime
 func Harness_C27_TryFuse() {
 	time.Local = time.UTC
 	now := int64(vs.SymRange("now", 1<<20, 1<<40))
